@@ -39,6 +39,9 @@ type DInput struct {
 	Probe   DSess   `json:"probe"`
 	Others  []DSess `json:"others"`
 	Order   []int   `json:"order"` // whose step comes next: 0 = probe, k = others[k-1]
+	// so many earlier sessions, each complete (histSession(svc, k): a tftp upload, a memcached set,
+	// a mail, a login ...), every one from its own client address, before anything else
+	Hist int `json:"hist,omitempty"`
 }
 type DObs struct {
 	Alone    []string `json:"alone"`    // per probe step (+ tail, + event stream): digest
@@ -165,6 +168,28 @@ func runDiffOnce(in *DInput, withOthers bool) ([]string, string) {
 		order = nil
 		for range in.Probe.Steps {
 			order = append(order, 0)
+		}
+	} else {
+		for k := 0; k < in.Hist; k++ {
+			hs := histSession(in.Svc, k)
+			for n, stp := range hs.Steps {
+				var crash string
+				if udp {
+					_, crash = u.datagram(n, hs.Conn, stp.Data)
+				} else {
+					kind := stp.Kind
+					if kind == "send" {
+						kind = "tok"
+					}
+					_, crash = e.step(n, kind, hs.Conn, stp.Data, 0)
+				}
+				if crash != "" {
+					return out, fmt.Sprintf("earlier session %d: %s", k, crash)
+				}
+			}
+			if !udp {
+				e.forget(hs.Conn)
+			}
 		}
 	}
 	for n, k := range order {
@@ -362,9 +387,10 @@ func tableOf(svc int) table {
 		}
 	case TELNET:
 		return table{
-			login:  lines("admin\r\n", "secret\r\n"),
-			others: lines("admin\r\n", "secret\r\n", "ls -la\r\n", "\r\n", "cat /etc/passwd\r\n", "\x1b[A", "\x1b[A\r\n", "ab\x7fc\r\n", "\x04", "partial", "\xff\xfb\x01", "uname -a\r\n"),
-			probe:  lines("root\r\n", "toor\r\n", "id\r\n", "\r\n", "\x1b[A\r\n", "wget http://x/y\r\n", "exit\r\n"),
+			login: lines("admin\r\n", "secret\r\n"),
+			others: lines("admin\r\n", "secret\r\n", "ls -la\r\n", "\r\n", "cat /etc/passwd\r\n", "\x1b[A", "\x1b[A\r\n", "ab\x7fc\r\n", "\x04", "partial", "\xff\xfb\x01", "uname -a\r\n",
+				"a", "d", "min", "\x01x\x05y\r\n", "word1 word2\x17\r\n", "abc\x0b\r\n", "\x1b[D\x1b[Cz\r\n", "\x0c", "\x1b[200~pasted\x1b[201~\r\n", strings.Repeat("long-", 30)+"\r\n"),
+			probe: lines("root\r\n", "toor\r\n", "uname -a\r\n", "id\r\n", "\r\n", "cat /etc/passwd\r\n", "\x1b[A\r\n", "ab\x7fc\r\n", "wget http://x/y\r\n", "exit\r\n"),
 		}
 	case REDIS:
 		return table{
@@ -488,6 +514,72 @@ func probeOf(svc, conn int, variant string) DSess {
 	return s
 }
 
+// the k-th earlier session of a long history: short, complete, from its own client (IPv6 pool
+// 2001:db8:9::200+k - the IPv4 pool of the harness has only 256 hosts)
+func histSession(svc, k int) DSess {
+	c := 8192 + 16*k
+	s := DSess{Conn: c}
+	send := func(ds ...string) {
+		for _, d := range ds {
+			s.Steps = append(s.Steps, DStep{Kind: "send", Data: []byte(d)})
+		}
+	}
+	switch proto(svc) {
+	case TFTP: // a complete upload of 1120 bytes: exactly the four datagrams the limiter grants
+		send(fmt.Sprintf("\x00\x02h%d\x00octet\x00", k), "\x00\x03\x00\x01"+strings.Repeat("h", 512), "\x00\x03\x00\x02"+strings.Repeat("h", 512), "\x00\x03\x00\x03"+strings.Repeat("h", 96))
+		return s
+	case MCUDP:
+		send("\x00\x01\x00\x00\x00\x01\x00\x00stats\r\n", "\x00\x01\x00\x00\x00\x01\x00\x00get k\r\n")
+		return s
+	}
+	s.Steps = append(s.Steps, DStep{Kind: "open"})
+	switch proto(svc) {
+	case MEMCACHED:
+		send(fmt.Sprintf("set h%d 0 0 5\r\nhello\r\n", k), fmt.Sprintf("get h%d\r\n", k))
+	case REDIS:
+		send("*1\r\n$4\r\nINFO\r\n", "*1\r\n$4\r\nPING\r\n")
+	case SMTP:
+		send("EHLO h.example\r\n", "MAIL FROM:<h@h.example>\r\n", "RCPT TO:<x@y.example>\r\n", "BDAT 8\r\nhistory-", fmt.Sprintf("BDAT 33 LAST\r\nSubject: h%04d\r\n\r\nearlier mail\r\n", k%10000), "QUIT\r\n")
+	case FTP:
+		send("USER anonymous\r\n", "PASS anonymous\r\n", "CWD a\r\n", "FEAT\r\n", "QUIT\r\n")
+	case LDAP:
+		for i, t := range []int{1, 4, 6} {
+			s.Steps = append(s.Steps, DStep{Kind: "send", Data: ldapPacket(t, i+1)})
+		}
+	case TELNET:
+		send("admin\r\n", "secret\r\n", fmt.Sprintf("echo %d\r\n", k))
+	case HTTP:
+		send(fmt.Sprintf("GET /h%d HTTP/1.1\r\nHost: h\r\nCookie: sid=h%d\r\n\r\n", k, k))
+	}
+	s.Steps = append(s.Steps, DStep{Kind: "close"})
+	return s
+}
+
+// the probe with every write cut into 2-3 pieces: the service sees each request arrive in several
+// reads, like a slow link or a person typing
+func splitProbe(r *hx.Rand, p DSess) DSess {
+	out := DSess{Conn: p.Conn}
+	for _, st := range p.Steps {
+		if st.Kind != "send" || len(st.Data) < 2 {
+			out.Steps = append(out.Steps, st)
+			continue
+		}
+		cuts := []int{r.Range(1, len(st.Data)-1)}
+		if len(st.Data) >= 4 && r.Chance(1, 2) {
+			cuts = append(cuts, r.Range(1, len(st.Data)-1))
+			sort.Ints(cuts)
+		}
+		prev := 0
+		for _, c := range append(cuts, len(st.Data)) {
+			if c > prev {
+				out.Steps = append(out.Steps, DStep{Kind: "send", Data: st.Data[prev:c]})
+				prev = c
+			}
+		}
+	}
+	return out
+}
+
 func variantsOf(svc int) []string {
 	var vs []string
 	for v := range tableOf(svc).probes {
@@ -500,6 +592,38 @@ func variantsOf(svc int) []string {
 func orderOf(r *hx.Rand, in *DInput, mode string) {
 	in.Order = nil
 	switch mode {
+	case "woven":
+		// after every step of the probe one step of another session (taken in turn): with a split
+		// probe the others' input is processed while a request of the probe is half read
+		left := make([]int, len(in.Others))
+		for k, o := range in.Others {
+			left[k] = len(o.Steps)
+		}
+		next := 0
+		// the others first get their connections open and say hello
+		for k := range in.Others {
+			for n := 0; n < 2 && left[k] > 0; n++ {
+				in.Order = append(in.Order, k+1)
+				left[k]--
+			}
+		}
+		for range in.Probe.Steps {
+			in.Order = append(in.Order, 0)
+			for tries := 0; tries < len(in.Others); tries++ {
+				k := (next + tries) % len(in.Others)
+				if left[k] > 0 {
+					in.Order = append(in.Order, k+1)
+					left[k]--
+					next = k + 1
+					break
+				}
+			}
+		}
+		for k := range in.Others {
+			for ; left[k] > 0; left[k]-- {
+				in.Order = append(in.Order, k+1)
+			}
+		}
 	case "before":
 		for k := range in.Others {
 			for range in.Others[k].Steps {
@@ -536,7 +660,7 @@ func orderOf(r *hx.Rand, in *DInput, mode string) {
 
 func genDiff(r *hx.Rand, tier string) []DInput {
 	var ins []DInput
-	perSvc := 10
+	perSvc := 8
 	if tier != "quick" {
 		perSvc = 150
 	}
@@ -555,6 +679,47 @@ func genDiff(r *hx.Rand, tier string) []DInput {
 					ins = append(ins, in)
 				}
 			}
+		}
+		udp := svc == TFTP || svc == MCUDP
+		// READ granularity: the probe's requests arrive in pieces, other sessions' input in between
+		if !udp {
+			nw := 4
+			if tier != "quick" {
+				nw = 40
+			}
+			for i := 0; i < nw; i++ {
+				pc := connID(0)
+				if i%2 == 1 {
+					pc = connID6(0)
+				}
+				in := DInput{Svc: svc, Variant: "split", Probe: splitProbe(r, probeOf(svc, pc, "main"))}
+				for k, n := 0, r.Range(1, 3); k < n; k++ {
+					c := ids4[k]
+					if r.Chance(1, 2) {
+						c = ids6[k]
+					}
+					o := genOther(r, svc, c, false)
+					if r.Chance(1, 2) {
+						o = splitProbe(r, o)
+					}
+					in.Others = append(in.Others, o)
+				}
+				orderOf(r, &in, r.PickStr([]string{"woven", "woven", "mixed"}))
+				ins = append(ins, in)
+			}
+		}
+		// long sequential histories: so many complete earlier sessions, then the probe
+		hists := []int{1, 10, 100}
+		if udp {
+			hists = []int{1, 10, 1000}
+		}
+		if tier != "quick" {
+			hists = append(hists, 10*hists[2])
+		}
+		for _, h := range hists {
+			in := DInput{Svc: svc, Variant: "history", Probe: probeOf(svc, connID(0), "main"), Hist: h}
+			orderOf(r, &in, "before")
+			ins = append(ins, in)
 		}
 		for i := 0; i < perSvc; i++ {
 			pc := connID(0)
@@ -624,6 +789,12 @@ func diffPart(o hx.Opts, r *hx.Rand, only *DInput) {
 		}
 		if v6 {
 			dist["with-ipv6-other-clients"]++
+		}
+		if in.Hist > 0 {
+			dist[fmt.Sprintf("earlier-complete-sessions:%d", in.Hist)]++
+		}
+		if in.Variant == "split" {
+			dist["probe-requests-arrive-in-pieces"]++
 		}
 		if in.Variant == "" {
 			in.Variant = "main"
